@@ -425,6 +425,47 @@ def run_parser_created(ctx, L, icu):
             L.destroy(cif)
 
 
+def run_many(ctx, L, icu):
+    """matching does not depend on how many other entries there are: tables and packets big enough for their name
+    tables to have been rebuilt several times, every key entered in one spelling and looked up in another"""
+    n = 600
+    nfd = ['k%03d_e\u0301\u0323' % i for i in range(n)]           # as entered (decomposed, marks not in canonical order)
+    nfc = [icu.nfc(k) for k in nfd]
+    rc, tb = L.value_create(KIND_TABLE)
+    v = L.make_value(('char', 'v', True))
+    try:
+        for k in nfd:
+            L.call('cif_value_set_item_by_key', tb, U(k), v)
+        missed = [k for k in nfc if L.table_get(tb, k)[0] != CIF_OK]
+        missed_own = [k for k in nfd if L.table_get(tb, k)[0] != CIF_OK]
+        if missed or missed_own:
+            ctx.violation('match:table:lookup:missed-in-big-table', 'a table of %d keys entered decomposed: %d are not found under the composed spelling, %d not under their own (first %s)'
+                          % (n, len(missed), len(missed_own), cps((missed or missed_own)[0])), dict(keys=n))
+        for k in nfc:
+            L.call('cif_value_set_item_by_key', tb, U(k), v)
+        rc, keys = L.table_keys(tb)
+        if sorted(keys) != sorted(nfc):
+            ctx.violation('match:table:keys:big-table', 'after re-entering the %d keys composed the table enumerates %d keys, %d of them not in the spelling used last'
+                          % (n, len(keys), len(set(keys) - set(nfc))), dict(keys=n))
+        ctx.count('big_table_keys', n)
+    finally:
+        L.value_free(tb)
+    names = ['_Item_%03d_\u00c9' % i for i in range(n)]
+    rc, pk = L.packet_create(names)
+    try:
+        missed = [nm for nm in names if L.packet_get(pk, icu.nfd(nm.lower()))[0] != CIF_OK]
+        for nm in names:
+            L.packet_set(pk, nm.upper(), v)
+        rc, got = L.packet_names(pk)
+        if missed or len(got) != n:
+            ctx.violation('match:packet:lookup:missed-in-big-packet', 'a packet of %d names: %d are not found under a lower-case decomposed spelling; after setting each under an upper-case spelling it lists %d names'
+                          % (n, len(missed), len(got)), dict(names=n))
+        ctx.count('big_packet_names', n)
+    finally:
+        L.packet_free(pk)
+        L.value_free(v)
+
+
 def worker(ctx):
     L = ctx.L
     icu = ICUmod.get()
@@ -448,6 +489,7 @@ def worker(ctx):
         else:
             run_validity(ctx, L)
             run_parser_created(ctx, L, icu)
+            run_many(ctx, L, icu)
         ctx.count('cases')
         ctx.drain_events(dict(index=i))
     for suffix, detail in scope.finish():
@@ -478,6 +520,7 @@ def run(env):
             normalizations=res.count('normalizations'), pair_strings=res.count('pair_strings'),
             srclen_cases=res.count('srclen_cases'), api_triples=res.count('api_triples'),
             table_key_cases=res.count('table_key_cases'), parser_duplicate_cases=res.count('parser_duplicate_cases'), validity_cases=res.count('validity_cases'),
+            big_table_keys=res.count('big_table_keys'), big_packet_names=res.count('big_packet_names'),
             parser_created_code_cases=res.count('parser_created_code_cases'), parser_created_code_not_created=res.count('parser_created_code_not_created'),
             icu_unicode_version=sorted(res.sets.get('unicode_version', ())), crashes=res.crashes),
         violations=res.violations, inconclusive=inconclusive,
